@@ -26,6 +26,7 @@ pub struct W {
     pub pools: Pools,
     pub corpus: Vec<Vec<Vec<u8>>>,
     pub thorough: bool,
+    pub case_started: Option<std::time::Instant>,
 }
 
 impl W {
@@ -41,6 +42,10 @@ impl W {
     }
     /// Mark the start of case `idx` (progress file) and return its private PRNG.
     pub fn begin_case(&mut self, idx: u64, family: &str) -> Rng {
+        if let Some(t) = self.case_started {
+            self.rep.max("max_case_wall_s", t.elapsed().as_secs_f64());
+        }
+        self.case_started = Some(std::time::Instant::now());
         if let Some(f) = &mut self.progress {
             let _ = f.seek(SeekFrom::Start(0));
             let _ = f.write_all(format!("{:>20}\n", idx).as_bytes());
@@ -84,9 +89,12 @@ pub fn main(args: &[String]) {
     let thorough = tier == "thorough";
     let no_oneoff = args.iter().any(|a| a == "--no-oneoff");
     let stack_mb: usize = arg(args, "--stack-mb").and_then(|s| s.parse().ok()).unwrap_or(2);
-    let mut w = W { no_oneoff, stack_mb, rep: Report::new(&prop, &tier, seed, shard, nshards), prop: prop.clone(), tier, seed, shard, nshards, cases, start, only, progress, transcript, pools: Pools::new(), corpus, thorough };
+    let mut w = W { no_oneoff, stack_mb, rep: Report::new(&prop, &tier, seed, shard, nshards), prop: prop.clone(), tier, seed, shard, nshards, cases, start, only, progress, transcript, pools: Pools::new(), corpus, thorough, case_started: None };
     let t0 = std::time::Instant::now();
     crate::props::dispatch(&mut w);
+    if let Some(t) = w.case_started {
+        w.rep.max("max_case_wall_s", t.elapsed().as_secs_f64());
+    }
     w.rep.extra.insert("wall_s".into(), json!(t0.elapsed().as_secs_f64()));
     let out = w.rep.to_json();
     let stdout = std::io::stdout();
